@@ -38,11 +38,102 @@ CTOR_TO_FUNC = {"frame_style": "centered"}
 def run(ctx):
     ctx.rule(geom_twin)
     ctx.rule(mirror_twin)
+    ctx.rule(torch_walk_by_evaluation)
     ctx.rule(port_reads_plain_fields)
     ctx.rule(nameflow)
     ctx.rule(reductions)
     ctx.rule(wrappers)
     ctx.rule(no_ambient_settings)
+
+
+def torch_walk_by_evaluation(ctx, R="R-C14-mirror-twin"):
+    """The segment walk of pytorch_stft_frame_computer, decided like its NumPy twin (C02, pdsa/walk.py): the per-filter loop is
+    evaluated by the checker's interpreter for every DFT size 2..10, start bin and run length, with and without the power option,
+    and the (bin, conjugated?, tap) triples that get multiplied are compared with the definition - tap j meets bin (s + j) mod D,
+    read from the half spectrum and conjugated above D/2.  Silent when the loop is outside the interpreter's vocabulary (the
+    closed-form clauses of the twin rules then stand alone)."""
+    from .. import walk as W
+    prog = ctx.prog
+    f = prog.func("torch.pytorch_stft_frame_computer")
+    loops = [n for n in f.body_nodes() if isinstance(n, ast.For) and isinstance(n.iter, ast.Call) and astq.is_name(n.iter.func, "zip")
+             and any(isinstance(x, ast.While) for x in ast.walk(n))]
+    if len(loops) != 1:
+        return
+    lp = loops[0]
+    zargs = [a.id for a in lp.iter.args if isinstance(a, ast.Name)]
+    if len(zargs) != 2:
+        return
+    outs = [c for c in ast.walk(lp) if astq.attr_call(c, "append") and isinstance(c.func.value, ast.Name)]
+    spects = sorted({t.id for n in f.body_nodes() if isinstance(n, ast.Assign) and any(astq.attr_call(x, "rfft") for x in ast.walk(n.value))
+                     for t in n.targets if isinstance(t, ast.Name)})
+    if len(outs) != 1 or len(spects) != 1:
+        return
+    yname = outs[0].func.value.id
+    what = "the torch walk multiplies tap j of a filter with bin (s + j) mod D, read from the half spectrum (conjugated above D/2)"
+    # names bound from the DFT size before the loop (half_len = spect.size(1), mod = dft_size_ % 2 ...): evaluated where possible
+    pre = [st for st in f.node.body if st.lineno < lp.lineno and isinstance(st, ast.Assign) and len(st.targets) == 1 and isinstance(st.targets[0], ast.Name)]
+    n = 0
+    try:
+        for D in range(2, 11):
+            half_len = D // 2 + 1
+            for s_ in range(D):
+                for T in range(0, D + 1):
+                    for power in (False, True):
+                        n += 1
+                        H = W.Arr([("H", j, False) for j in range(T)])
+                        X = W.Arr([("X", k, False) for k in range(half_len)])
+                        env = {zargs[0]: [s_], zargs[1]: [H], spects[0]: X, yname: [], "zero": 0, "use_power": power, "is_real": False, "use_log": False,
+                               "dft_size_": D, "dft_size": D, "half_len": half_len, "mod": D % 2, "include_energy": False}
+                        it = W.Interp(env, hooks={"size": lambda interp, call: half_len})
+                        for st in pre:
+                            if st.targets[0].id in (spects[0], yname, zargs[0], zargs[1]):
+                                continue
+                            try:
+                                it.run([st])
+                            except (W.Unsupported, W.ShapeError):
+                                continue
+                        it.env[spects[0]] = X
+                        try:
+                            it.run([lp])
+                        except W.ShapeError as e:
+                            ctx.bad(R, f, lp, "for a DFT of %d bins and a filter that starts at bin %d with %d value(s), evaluating the torch walk fails: %s"
+                                    % (D, s_, T, e), what, robust=True)
+                            return
+                        res = it.env.get(yname)
+                        if not (isinstance(res, list) and len(res) == 1):
+                            raise W.Unsupported("result list")
+                        v = res[0]
+                        if isinstance(v, int) and v == 0:
+                            got = []
+                        elif isinstance(v, W.Terms):
+                            got = list(v.pairs)
+                        else:
+                            raise W.Unsupported("coefficient is %s" % type(v).__name__)
+
+                        def norm(x):
+                            (n1, i1, c1), (n2, i2, c2) = x
+                            if n1 == "H":
+                                (n1, i1, c1), (n2, i2, c2) = (n2, i2, c2), (n1, i1, c1)
+                            if n1 != "X" or n2 != "H":
+                                raise W.Unsupported("product of %s and %s" % (n1, n2))
+                            if i1 == 0 or (D % 2 == 0 and i1 == D // 2):
+                                c1 = False
+                            return (i1, c1 != c2, i2)
+                        got = sorted(norm(x) for x in got)
+                        want = []
+                        for j in range(T):
+                            k = (s_ + j) % D
+                            want.append((k, False, j) if k <= D // 2 else (D - k, True, j))
+                        want = sorted((i, (False if (i == 0 or (D % 2 == 0 and i == D // 2)) else cj), j) for i, cj, j in want)
+                        if got != want:
+                            def show(tr):
+                                return ", ".join("%sX[%d]*H[%d]" % ("conj " if cj else "", i, j) for i, cj, j in tr[:8]) + (" ..." if len(tr) > 8 else "") or "nothing"
+                            ctx.bad(R, f, lp, "for a DFT of %d bins and a filter that starts at bin %d with %d value(s) the torch walk multiplies %s ; the sum over "
+                                    "all bins needs %s" % (D, s_, T, show(got), show(want)), what, robust=True)
+                            return
+    except W.Unsupported:
+        return
+    ctx.ok(R, f.loc(lp), what, "%d combinations of DFT size (2..10), start bin, run length and power option evaluated" % n)
 
 
 def port_filters_by_evaluation(ctx, R="R-C14-nameflow"):
